@@ -65,6 +65,27 @@ def handle (op : String) (j : Json) : Except String Json := do
     let m := Json.mkObj [("recs", Json.arr ((chunks.flatten).map mj).toArray), ("chunks", natList (chunks.map List.length))]
     let s := Json.mkObj [("recs", Json.arr ((recs.map (view names)).map sj).toArray)]
     pure (reply m (some s))
+  | "program" =>
+    -- a sequence of selections (given as position lists), writes and field reads on the table read from the file
+    let steps ← getArr j "steps"
+    let prog ← steps.mapM (fun st => do
+      let a ← st.getArr?
+      let kind ← (a.getD 0 Json.null).getStr?
+      match kind with
+      | "select" => do
+        let idx ← asNatList (a.getD 1 Json.null)
+        pure (PStep.select idx)
+      | "write" => pure PStep.write
+      | _ => pure PStep.fields)
+    let outs := runProg names (Ext.ofChunk (addNewline body)) prog
+    let sp := specProg names recs prog
+    let mjs := outs.map (fun o => match o with
+      | .written b => Json.mkObj [("w", bhash b)]
+      | .read ds => Json.mkObj [("r", Json.arr (ds.map mj).toArray)])
+    let sjs := sp.map (fun o => match o with
+      | .written b => Json.mkObj [("w", bhash b)]
+      | .read ds => Json.mkObj [("r", Json.arr (ds.map sj).toArray)])
+    pure (reply (Json.arr mjs.toArray) (some (Json.arr sjs.toArray)))
   | "count" =>
     -- `count_entries`: NumpyFileReader.read_chunks(min_chunk_size=500000), sum of chunk.count_entries()
     pure (reply (Json.mkObj [("n", nat (countEntries oc on names 500000 body))]) (some (Json.mkObj [("n", nat recs.length)])))
